@@ -117,7 +117,7 @@ package gen
 //@   invariant[C06] old(#p.meta.rowGroups) >= 1 ==> lastRows(p.meta) == p.meta.rowGroupDocs
 //@ loop (*ParquetWriter).Write#3
 //@   modifies HA(schema)
-//@   invariant freshsince(schema) && metaOK(p.meta) && (wfault ==> old(wfault)) && #schema == #p.fields
+//@   invariant freshsince(schema) && metaOK(p.meta) && (wfault ==> old(wfault))
 
 // The footer's row count is the sum of the row counts of the row groups it
 // lists, and it lists exactly the groups that hold rows.
@@ -242,7 +242,7 @@ package gen
 //@   invariant[C06] optMax(opts, rangeindex + 1) < 0 ==> p.max == 1000
 //@ loop newParquetWriter#2
 //@   modifies HA(schema)
-//@   invariant freshsince(schema) && #schema == #ff
+//@   invariant freshsince(schema)
 //@   invariant[C06] onlyNew(p)
 
 // Add counts one row in the open row group (whichever writer of the chain
